@@ -117,8 +117,14 @@ def judge (toks : List String) (ans : String) : Verdict :=
       else Verdict.fail ((if cls == "valid" then "pt-valid-mismatch:" else "pt-excluded-" ++ cls ++ ":") ++
         clip ("_".intercalate toks)) ["pt:" ++ cls, "pt:" ++ kind]
 
+/-- all ops of the case; a failure on a *valid* input is reported first, so that it cannot hide
+    behind a failure of an excluded class (a known finding) in the same case -/
 def oracle (obs : List (List String × String)) : Verdict :=
-  obs.foldl (fun v (toks, ans) => v.and (judge toks ans)) (Verdict.pass false)
+  let vs := obs.map fun (toks, ans) => judge toks ans
+  let all := vs.foldl Verdict.and (Verdict.pass false)
+  match vs.find? (fun v => !v.ok && !(v.reason.startsWith "pt-excluded-" || v.reason.startsWith "key-excluded-")) with
+  | some v => { all with reason := v.reason }
+  | none => all
 
 def driver : Driver Unit := { init := (), step := step, oracle := oracle }
 
